@@ -760,14 +760,20 @@ class AbstractFeatureInterval(AbstractInterval, ABC):
     def get_reference_sequence(self) -> Sequence:
         """Returns the feature's *unspliced*, *positive strand* genomic sequence."""
         ObjectValidation.require_location_has_parent_with_sequence(self._location)
-        return self.chunk_relative_location.parent.sequence[self._location.start : self._location.end]
+        seq = self.chunk_relative_location.parent.sequence[self._location.start : self._location.end]
+        # a sequence chunk may itself be the reverse complement of its chromosome window
+        if self._location.strand == self.strand:
+            return seq
+        else:
+            return seq.reverse_complement()
 
     @lru_cache(maxsize=1)
     def get_genomic_sequence(self) -> Sequence:
         """Returns the feature's *unspliced*, *stranded* (transcription orientation) genomic sequence."""
         ObjectValidation.require_location_has_parent_with_sequence(self._location)
         seq = self.chunk_relative_location.parent.sequence[self._location.start : self._location.end]
-        if self.strand == Strand.PLUS:
+        # the slice is in the orientation of the (chunk) sequence, so it is the chunk-relative strand that decides
+        if self._location.strand == Strand.PLUS:
             return seq
         else:
             return seq.reverse_complement()
